@@ -41,6 +41,8 @@ def parseOp (ts : List String) : Option Op :=
   match ts with
   | ["start", id, dbrps, froms] => do
     pure (.start { id := (← unesc id), dbrps := (← parseDBRPs dbrps), froms := (← parseFroms froms) })
+  | ["startfail", id, dbrps, froms] => do
+    pure (.startfail { id := (← unesc id), dbrps := (← parseDBRPs dbrps), froms := (← parseFroms froms) })
   | ["stop", id] => do pure (.stop (← unesc id))
   | ["delete", id] => do pure (.delete (← unesc id))
   | ["write", db, rp, pts] => do pure (.write (← unesc db) (← unesc rp) (← parsePoints pts))
@@ -60,6 +62,7 @@ structure St where
   sawTwoRunning : Bool := false
   otherOpBetween : Bool := false
   anyDelivered : Bool := false
+  hung : Option String := none     -- a call into the real code did not return
 
 def addBr (st : St) (b : String) : St :=
   if st.branches.contains b then st else { st with branches := b :: st.branches }
@@ -108,6 +111,10 @@ def noteOp (st : St) (op : Op) : St :=
     let st := if d.dbrps.any (·.2 == "") then addBr st "start-empty-rp-declared" else st
     let st := if st.running.length ≥ 1 && !st.hist.isEmpty then { st with otherOpBetween := true } else st
     st
+  | .startfail d =>
+    if d.dbrps.isEmpty then addBr st "start-no-dbrps" else
+    let st := addBr st "startfail"
+    if d.keys.any (fun k => !(st.model.forks k).isEmpty) then addBr st "startfail-on-shared-key" else st
   | .stop id =>
     let st := if (st.running.filter (· != id)).length ≥ 1 && st.running.contains id then { st with otherOpBetween := true } else st
     addBr st (if st.running.contains id then "stop-running" else "stop-idle")
@@ -119,6 +126,7 @@ def noteOp (st : St) (op : Op) : St :=
 def expectObs (st : St) (op : Op) : String :=
   match op with
   | .start d => if d.dbrps.isEmpty then "err:nodbrp" else "ok"
+  | .startfail d => if d.dbrps.isEmpty then "err:nodbrp" else "err:snapshot"
   | _ => if st.model.sentOnClosed then "panic" else "ok"
 
 def judge (_id : String) (lines : Array String) : Verdict := Id.run do
@@ -141,8 +149,9 @@ def judge (_id : String) (lines : Array String) : Verdict := Id.run do
         return .specfail "delivered-exactly-once-in-order" s!"task {esc T} from#{i}: spec {sp} observed {" ".intercalate obs}"
       if obs != [m] then return .mismatch s!"task {esc T} from#{i}: model {m} observed {" ".intercalate obs}"
     | ["close"] =>
-      return .mismatch s!"TaskMaster.Close: model ok observed {" ".intercalate obs}"
+      if st.hung.isNone then st := { st with hung := some s!"TaskMaster.Close observed {" ".intercalate obs}" }
     | ["quiesce"] =>
+      if let some h := st.hung then return .mismatch s!"the real code hangs: {h}"
       if obs != ["0"] then return .mismatch s!"the harness timed out waiting for the pipeline: {" ".intercalate obs}"
     | _ =>
       match parseOp opT with
@@ -150,13 +159,18 @@ def judge (_id : String) (lines : Array String) : Verdict := Id.run do
         -- well-formedness of the generated history
         match op with
         | .start d => if !d.dbrps.isEmpty && st.running.contains d.id then return .badop s!"start of an executing id: {l}"
+        | .startfail d => if st.running.contains d.id then return .badop s!"start of an executing id: {l}"
         | _ => pure ()
         st := noteOp st op
         let model' := step st.model op
         let want := expectObs { st with model := model' } op
-        if obs != [want] then return .mismatch s!"{" ".intercalate opT}: model {want} observed {" ".intercalate obs}"
+        if obs == ["hang"] then
+          -- the call never returned: keep judging what the sinks recorded (a loss is a SPECFAIL), report the hang otherwise
+          if st.hung.isNone then st := { st with hung := some s!"{" ".intercalate (opT.take 2)} did not return" }
+        else if obs != [want] then return .mismatch s!"{" ".intercalate opT}: model {want} observed {" ".intercalate obs}"
         let running := match op with
           | .start d => if d.dbrps.isEmpty then st.running else d.id :: st.running
+          | .startfail _ => st.running
           | .stop id => st.running.filter (· != id)
           | .delete id => st.running.filter (· != id)
           | .write _ _ _ => st.running
@@ -166,6 +180,7 @@ def judge (_id : String) (lines : Array String) : Verdict := Id.run do
         st := { st with model := model', hist := op :: st.hist, running := running, everStarted := ever }
       | none => return .badop l
   -- non-trivial: something was delivered AND (the two-key case occurred, or another task was started/stopped while one was running)
+  if let some h := st.hung then return .mismatch s!"the real code hangs: {h}"
   let nt := st.anyDelivered && (st.sawDedupe || (st.sawTwoRunning && st.otherOpBetween))
   return .ok nt st.branches.reverse
 
